@@ -2,7 +2,7 @@
    qutil_aligned_qsort use below the cutoff (len <= MT_LOOP_CHUNK) and qutil_mergesort uses for its presort:
    src/qutil.c  drf_qsort_dbl / drf_qsort_algt  (the two functions differ only in the element type), an iterative
    quicksort with an explicit stack beg[MAX] / end[MAX] (variable-length arrays), MAX = QT_INT_LOG(elements) + 5.
-   Definitions only (proofs: SeqSortProofs.v, SeqSortOuter.v, SeqSortTop.v).
+   Definitions only (proofs: SeqSortProofs.v, SeqSortOuter.v, SeqSortArr.v, SeqSortTop.v).
 
        const ssize_t MAX = QT_INT_LOG(elements) + 5;
        ssize_t beg[MAX], end[MAX], i = 0, L, R, swap;   T piv;
@@ -28,7 +28,8 @@
    abstract type with a comparison `leb` (x <= y); `arr[R] >= piv` is `leb piv arr[R]` (no NaN, as in Sort.v).
    The explicit stack: the list of the live entries (beg[k], end[k]), k = i, i-1, .., 0 (head = entry i).  Entries above i
    are never read before they are written (beg[i+1] / end[i+1] are assigned before i++), so the list is an exact data
-   refinement of the two arrays and the index; `length - 1` is the code's i.  The capacity is the code's: a write to
+   refinement of the two arrays and the index (proved: SeqSortArr.outer_arr_refines, for arbitrary initial contents of
+   the arrays); `length - 1` is the code's i.  The capacity is the code's: a write to
    beg[i+1] with i+1 >= MAX is outside the variable-length array (undefined behaviour): the model stops (None), as it does
    when it runs out of fuel.  Besides the array the run returns the largest i seen at the loop head and the number of
    loop-head visits (the two observables the harness probes through the assert macro). *)
